@@ -24,7 +24,7 @@ EXPLANATION = (
     "many '$' as arguments, a format that embeds run-time text has no arguments, and the logger logs an argument-free "
     "format verbatim; (ii) code that is control-dependent on a log-level test only logs or saves/restores the log "
     "level; (iii) the stack-trace flag only selects message detail. "
-    "Not decided: CR-LF and final-newline equality of the two line splitters; the locale decoding of sys.stdin itself."
+    "R16h every API method that runs main() catches the exit, keeps its code and hands it to what builds its answer. Not decided: CR-LF and final-newline equality of the two line splitters; the locale decoding of sys.stdin itself."
 )
 ASSUMPTIONS = [
     "argparse rejects options that no add_argument registered (so an unknown API option cannot be silently ignored)",
